@@ -158,16 +158,24 @@ GEN2 = {
 }
 
 
-def mk2(op, sa, sb, a):
-    return pipe(arange_pair(sa, sb), [(op, [0, 1], a)], eval=True)
+EVAL_EVERY = 6   # the eval differential (4 extra evaluations of the whole pipeline) costs ~10x a lazy read: 1 case in 6 carries it
 
 
-def mk1(op, s, a):
-    return pipe([arr(s, 1)], [(op, [0], a)], eval=True)
+def mk2(op, sa, sb, a, ev=False):
+    return pipe(arange_pair(sa, sb), [(op, [0, 1], a)], eval=ev)
+
+
+def mk1(op, s, a, ev=False):
+    return pipe([arr(s, 1)], [(op, [0], a)], eval=ev)
 
 
 def _sel(key, stride):
+    # hash() of a tuple of ints is deterministic across runs (only str/bytes hashing is salted)
     return stride <= 1 or hash(key) % stride == 0
+
+
+def _ev(key):
+    return hash((7,) + key) % EVAL_EVERY == 0
 
 
 def binary_space(tag, emax, stride=1, only_with=None, max_out=700):
@@ -184,13 +192,13 @@ def binary_space(tag, emax, stride=1, only_with=None, max_out=700):
         if tag in ("outer", "kron") and prod(sa) * prod(sb) > max_out:
             continue
         ax = a.get("axes")
-        key = (ti, tuple(sa), tuple(sb), ax if isinstance(ax, int) or ax is None else (tuple(ax[0]), tuple(ax[1])))
+        key = (ti, tuple(sa), tuple(sb), -1 if ax is None else ax if isinstance(ax, int) else (tuple(ax[0]), tuple(ax[1])))
         if not _sel(key, stride):
             continue
         op = tag.split("/")[0]
-        yield mk2(op, sa, sb, a)
+        yield mk2(op, sa, sb, a, _ev(key))
         if tag == "tensordot/int" and 1 <= a["axes"] <= 4:
-            yield mk2("tensordot_ct", sa, sb, a)
+            yield mk2("tensordot_ct", sa, sb, a, _ev((1,) + key))
 
 
 def unary_space(emax, stride=1, only_with=None):
@@ -200,8 +208,8 @@ def unary_space(emax, stride=1, only_with=None):
         key = (99, tuple(s), a["offset"], a["axis1"], a["axis2"])
         if not _sel(key, stride):
             continue
-        yield mk1("diagonal", s, a)
-        yield mk1("trace", s, a)
+        yield mk1("diagonal", s, a, _ev(key))
+        yield mk1("trace", s, a, _ev((1,) + key))
 
 
 TAGS = ["matmul", "matmulv2", "dot", "inner", "outer", "vecdot", "tensordot/int", "tensordot/pairs", "kron"]
@@ -250,6 +258,28 @@ def structure(case):
     return op, a, sa, sb, k, bc, r1
 
 
+def structural_late(case):
+    """matmul (first implementation) with a rank-1 operand; trace/diagonal with a negative offset"""
+    s = case["stages"][0]
+    if s["f"] == "matmul":
+        return any(len(x["shape"]) == 1 for x in case["arrays"])
+    if s["f"] in ("trace", "diagonal"):
+        return s["a"]["offset"] < 0
+    return False
+
+
+def structural_features(case):
+    op, a, sa, sb, k, bc, r1 = structure(case)
+    f = {"op": op, "lhs_dim": len(sa), "rhs_dim": len(sb) if sb is not None else None, "rank1": r1, "any_rank1": r1 != "none",
+         "bcast_batch": bc}
+    if op in ("trace", "diagonal"):
+        f["offset_sign"] = (a["offset"] > 0) - (a["offset"] < 0)
+    if op in ("tensordot", "tensordot_ct"):
+        f["axes_kind"] = "int" if isinstance(a["axes"], int) else "pairs"
+        f["naxes"] = a["axes"] if isinstance(a["axes"], int) else len(a["axes"][0])
+    return f
+
+
 def _stretches(A, B):
     """True when broadcasting the two batch shapes repeats data of at least one operand"""
     n = max(len(A), len(B))
@@ -262,7 +292,7 @@ class C16(Prop):
     id = "C16"
     servers = ["linalg"]
     rule = ("case = one linear-algebra view (matmul, matmulv2, dot, inner, outer, vecdot, tensordot with run-time int / compile-time int / "
-            "explicit axis pairs, kron, trace, diagonal) on integer operands, observed lazily (shape + every element) and through eval "
+            "explicit axis pairs, kron, trace, diagonal) on integer operands, observed lazily (shape + every element); 1 case in 6 additionally through eval "
             "(inferred row/column-major, supplied row/column-major output); exact comparison with NumPy on int64. Only NumPy-valid operand "
             "pairs are constructed (batch axes that broadcast 1 vs n included). non-trivial = contraction length > 1 and reference result has "
             "more than one element (some batch/free axis > 1); for outer/kron/diagonal (no contraction): every operand and the result have "
@@ -284,6 +314,17 @@ class C16(Prop):
                 "(strides %s); trace/diagonal dim2..4 ext1..2 full + ext 3 subsample 1/6" % QUICK3)
 
     def exhaustive(self, tier):
+        # core stops the exhaustive tier after 200 failures. The input classes in which the pinned tree fails wholesale
+        # (see structural_late) are evaluated last, so that such a run still covers the whole rest of the space.
+        late = []
+        for c in self._space(tier):
+            if structural_late(c):
+                late.append(c)
+            else:
+                yield c
+        yield from late
+
+    def _space(self, tier):
         if tier == "thorough":
             for tag in TAGS:
                 if tag == "tensordot/pairs":
@@ -301,7 +342,7 @@ class C16(Prop):
 
     # ---- random ----------------------------------------------------------
     def n_random(self, tier):
-        return 4200 if tier == "quick" else 120000
+        return 2800 if tier == "quick" else 30000
 
     def strategy(self, tier):
         CAP = 600
@@ -359,7 +400,8 @@ class C16(Prop):
                 if draw(st.booleans()):
                     a2 -= d
                 n = prod(s)
-                return pipe([{"shape": s, "data": data(draw, n)}], [(op, [0], {"offset": off, "axis1": a1, "axis2": a2})], eval=True)
+                ev = draw(st.integers(0, EVAL_EVERY - 1)) == 0
+                return pipe([{"shape": s, "data": data(draw, n)}], [(op, [0], {"offset": off, "axis1": a1, "axis2": a2})], eval=ev)
             if op in ("matmul", "matmulv2"):
                 la = draw(st.integers(1, 5))
                 lb = draw(st.integers(1, 5))
@@ -422,7 +464,8 @@ class C16(Prop):
                     a = {"axes": L}
                 op = {"tensordot/int": "tensordot", "tensordot/ct": "tensordot_ct", "tensordot/pairs": "tensordot"}[op]
             arrays = [{"shape": sa, "data": data(draw, prod(sa))}, {"shape": sb, "data": data(draw, prod(sb))}]
-            return pipe(arrays, [(op, [0, 1], a)], eval=True)
+            ev = draw(st.integers(0, EVAL_EVERY - 1)) == 0
+            return pipe(arrays, [(op, [0, 1], a)], eval=ev)
         return case()
 
     # ---- oracle ----------------------------------------------------------
@@ -474,13 +517,24 @@ class C16(Prop):
         return out
 
     def features(self, case, failure):
-        op, a, sa, sb, k, bc, r1 = structure(case)
-        f = {"op": op, "lhs_dim": len(sa), "rhs_dim": len(sb) if sb is not None else None, "rank1": r1, "bcast_batch": bc,
-             "crash": failure.startswith("server crashed"), "oob": failure.startswith("out-of-range"), "nothing": "returned Nothing" in failure,
-             "shape_mismatch": failure.startswith("shape "), "eval_only": failure.startswith("eval differs")}
-        if op in ("trace", "diagonal"):
-            f["offset_sign"] = (a["offset"] > 0) - (a["offset"] < 0)
-        if op in ("tensordot", "tensordot_ct"):
-            f["axes_kind"] = "int" if isinstance(a["axes"], int) else "pairs"
-            f["naxes"] = a["axes"] if isinstance(a["axes"], int) else len(a["axes"][0])
+        f = structural_features(case)
+        f.update({"crash": failure.startswith("server crashed"), "oob": failure.startswith("out-of-range"),
+                  "nothing": "returned Nothing" in failure, "shape_mismatch": failure.startswith("shape "),
+                  "eval_only": failure.startswith("eval differs")})
         return f
+
+    _known = None
+
+    def excluded(self, case):
+        """generator-level exclusion: a known_findings.json entry of this property with status "known" and an "exclude"
+        dict over the structural features (op, lhs_dim, rhs_dim, rank1, any_rank1, bcast_batch, offset_sign, axes_kind, naxes)"""
+        if C16._known is None:
+            from ..core import load_known
+            C16._known = [e for e in load_known(self.id) if e.get("status") == "known" and e.get("exclude")]
+        if not C16._known or case.get("_witness"):
+            return None
+        f = structural_features(case)
+        for e in C16._known:
+            if all((f.get(k) in v) if isinstance(v, list) else (f.get(k) == v) for k, v in e["exclude"].items()):
+                return e["id"]
+        return None
